@@ -111,7 +111,7 @@ def collect_atoms(conds):
                 return
             atoms[norm_atom(s)] = (s, "bool")
             return
-        if t == "call" and (s[1].startswith("checked_") or s[1] in ("is_lt", "is_le", "is_gt", "is_ge", "is_eq", "is_ne", "total_cmp", "is_empty", "is_none", "is_some")):
+        if t == "call" and (s[1].startswith("checked_") or s[1] in ("is_lt", "is_le", "is_gt", "is_ge", "is_eq", "is_ne", "total_cmp", "is_empty", "is_none", "is_some", "is_ok", "is_err", "pow", "wrapping_pow")):
             go(s[2])
             for a in s[3]:
                 go(a)
@@ -305,6 +305,14 @@ def evaluate(s, env):
             b = evaluate(s[3][0], env)
             ka, kb = total_key(a), total_key(b)
             return (ka > kb) - (ka < kb)
+        if m in ("is_some", "is_ok"):
+            return opt_value(s[2], env)[0]
+        if m in ("is_none", "is_err"):
+            return not opt_value(s[2], env)[0]
+        if m in ("pow", "wrapping_pow"):
+            a = evaluate(s[2], env)
+            b = evaluate(s[3][0], env)
+            return a**b if b < 200 else (a ** (b % 2 + 2) if abs(a) <= 1 else float("inf"))
         if m == "is_empty":
             base = ("call", "len", s[2], [])
             return evaluate(base, env) == 0
